@@ -75,8 +75,19 @@ def flag (changeT changeG : Bool) (r : Rec) : Rec :=
   let r1 : Rec := if changeT then { r with atype := amb, multimapper := true } else r
   if changeG then { r1 with gtype := amb, multimapper := true } else r1
 
-/-- `filter_assignments` once the kept indices are known (after `find_duplicates`) -/
+/-- `filter_assignments` once the kept indices are known (after `find_duplicates`).
+    `several_kept = len(assignments_to_keep) > 1`: the read is re-flagged only when it is kept on several records; a
+    single retained record keeps the types and the multimapper flag it came with (audit-2 GAP C08-1, `fix:` commit) -/
 def applyKeep (l : List Rec) (kept : List IRec) : List Rec :=
+  let several := decide (1 < kept.length)
+  let changeT := several && decide (1 < setSize (kept.flatMap (fun x => x.1.isoforms)))
+  let changeG := several && decide (1 < setSize (kept.flatMap (fun x => x.1.genes)))
+  l.zipIdx.map (fun x => if (kept.map (·.2)).contains x.2 then flag changeT changeG x.1 else suspend x.1)
+
+/-- the same before that fix: the flags looked at the names only, so ONE retained record that names two isoforms at its
+    own locus (`ambiguous` / `inconsistent_ambiguous`) was re-flagged `multimapper` because of records that lost
+    (kept for the regression witness `single_winner_witness`) -/
+def applyKeepBuggy (l : List Rec) (kept : List IRec) : List Rec :=
   let changeT := decide (1 < setSize (kept.flatMap (fun x => x.1.isoforms)))
   let changeG := decide (1 < setSize (kept.flatMap (fun x => x.1.genes)))
   l.zipIdx.map (fun x => if (kept.map (·.2)).contains x.2 then flag changeT changeG x.1 else suspend x.1)
@@ -195,6 +206,10 @@ def candidates (l : List Rec) : Option (List IRec) :=
   else if !(classPInc l).isEmpty then some (bestInconsistent (classPInc l))
   else if !(classInc l).isEmpty then some (bestInconsistent (classInc l))
   else (bestNoninformative (classNon l)).map (fun x => [x])
+
+/-- `select_best_assignment` before the `several_kept` fix (the same candidates, the old flag rule) -/
+def selectBestAssignmentBuggyFlag (l : List Rec) : Option (List Rec) :=
+  (candidates l).map (fun c => applyKeepBuggy l (findDuplicates c))
 
 /-- observable verdict: a record of the resolver's output is retained iff it is not `suspended` -/
 def retained (out : List Rec) : List Rec := out.filter (fun r => !(r.atype == .suspended))
